@@ -156,7 +156,10 @@ PLANS["C03"] = dict(
                "against the real verifier with real chains, both envelope formats. A second model (VStoresHist) states that a verifier answers "
                "every verification of a history from the trust-store directory and that verification alone (refining the four-store model); "
                "histories of two verifications over all directories of five named stores (names shared across ca / signingAuthority / tsa, "
-               "time-stamped signatures that make the verifier read tsa stores) are run with ONE verifier over a real directory.",
+               "time-stamped signatures that make the verifier read tsa stores) are run with ONE verifier over a real directory. "
+               "Several verifications in flight on one verifier (VerifierShared.tla): NonInterference is model-checked, a design that keeps the "
+               "chosen statement in the verifier object must violate it, and the complete histories of three calls are replayed against the real "
+               "verifier with the caller-supplied trust store as the scheduler's gate, under the race detector.",
     level_note="Trusted: notation-core-go VerifyAuthenticity (certificate equality), Go crypto, TLC. The placement sweep uses a logging in-memory "
                "trust store, the history phase the real file-system trust store (its loading rules are C13's).",
     rule="cases = all (scheme, store contents, store list, other-statement store, level) of MC_Verifier_C03; non-trivial = authenticity must fail "
@@ -279,7 +282,10 @@ PLANS["C08"] = dict(
                "is a distinct document) and every reference shape, that the code-shaped selection loop equals the declarative choice on the SET of "
                "statements (hence order independence and uniqueness), and models select / mutate-returned-copy / select-again with the document as "
                "a frame; every case is replayed on the real documents (and through verifier.Verify, where the reported enforcement map identifies "
-               "the applied statement), the returned statement is deep-mutated and selected again.",
+               "the applied statement), the returned statement is deep-mutated and selected again. "
+               "Several verifications in flight on one verifier (VerifierShared.tla): NonInterference is model-checked, a design that keeps the "
+               "chosen statement in the verifier object must violate it, and the complete histories of three calls are replayed against the real "
+               "verifier with the caller-supplied trust store as the scheduler's gate, under the race detector.",
     level_note="Trusted: TLC; the mapping of abstract scope atoms to concrete near-identical strings is fixed in harness/drv_policy.go.",
     rule="cases = (document, reference) pairs of MC_TrustPolicy_C08 for both kinds; non-trivial = several statements or a well-formed reference",
     exhaustive=True,
@@ -616,7 +622,10 @@ PLANS["C17"] = dict(
                "without the bounded wait must violate the bound. Part B: the classification of a finished call is a pure function checked "
                "against the statement by ASSUMEs over the whole reply table; every row (command x exit code x stdout kind x stderr kind, and "
                "timing rows: slower than the deadline, descendants holding the pipes) is executed with generated /bin/sh plugins through the "
-               "real CLIPlugin, observing the typed error, the delay after the deadline and the peak memory of the host.",
+               "real CLIPlugin, observing the typed error, the delay after the deadline and the peak memory of the host. Part C "
+               "(PluginOverlap.tla): several calls in flight at once keep NonInterference (a call hands back what ITS process printed), a design "
+               "with pooled output buffers must violate it; all 90 histories of starts and decodes of three calls are replayed through the real "
+               "CLIPlugin with the caller's logger as the scheduler's gate, under the race detector.",
     level_note="Trusted: TLC, /bin/sh, the kernel's pipe semantics. The bound checked on real runs is 6 s after a 400 ms deadline against "
                "descendants holding the pipes until released; peak RSS of the host child process is bounded by 2 x cap + 160 MiB.",
     rule="cases = reply rows and timing rows of MC_PluginProc_C17; non-trivial = the expected class is not plain success",
@@ -668,7 +677,10 @@ PLANS["C04"] = dict(
                "shapes (plain, many attributes, escaped separator; uninterpretable: multi-valued RDN, duplicate attribute, missing ST, "
                "non-standard OID) and every identity list a valid policy can carry, built relative to the leaf (equal, strict subset, strict "
                "superset, one-character near misses, case variant, the intermediate's / root's subject, disjoint, unknown prefix, wildcard); "
-               "every case is replayed with really minted chains having those subjects and identities rendered in several textual forms.",
+               "every case is replayed with really minted chains having those subjects and identities rendered in several textual forms. "
+               "Several verifications in flight on one verifier (VerifierShared.tla): NonInterference is model-checked, a design that keeps the "
+               "chosen statement in the verifier object must violate it, and the complete histories of three calls are replayed against the real "
+               "verifier with the caller-supplied trust store as the scheduler's gate, under the race detector.",
     level_note="Trusted: TLC, crypto/x509 subject rendering and go-ldap DN parsing as used by the code. An identity attribute with an EMPTY value "
                "is judged by the wording 'every attribute of that identity occurs with an equal value'.",
     rule="cases = (leaf shape, identity list, level) of MC_Verifier_C04; non-trivial = no wildcard in the list",
@@ -745,7 +757,8 @@ PLANS["C12"] = dict(
                "the trace spec judges only the universal clauses there (normal return, bounded allocation, consistent outcome). Plugin output and "
                "key-list files: the reply table of PluginProc.tla (every command x exit code x stdout x stderr kind, executed with generated "
                "plugins; returned errors must also be printable) and the operation histories of SigningKeys.tla are replayed with only the "
-               "normal-return rule judged.",
+               "normal-return rule judged; so are the histories of ConfigFile.tla (config.json). The listing loop of notation.Verify "
+               "(MC_Notation_C10) is replayed with the rule that a nil error comes with the accepted signature's outcome and no other.",
     level_note="Trusted: TLC, the Go runtime's recover/MemStats. The byte-level universals are sampled, not exhaustive; plugin output and plugin "
                "answers are covered by the C17/C18 drivers, which also run under recover().",
     rule="matrix: all cells of MC_EntryPoints_C12; bytes: seeded mutations of valid inputs (counted per call); non-trivial = expected failure, "
